@@ -91,6 +91,8 @@ func ixPairs(rng *rand.Rand) []ixPairDef {
 		{ixServices[0], ixServices[3], true, false}, {ixServices[1], ixServices[4], true, false}, {ixServices[5], ixServices[2], true, false},
 		{ixServices[0], harness.FullID(harness.ChainB, "ghost"), false, false}, // destination service does not exist
 		{ixServices[4], harness.FullID("nochain", "s1"), false, true},        // destination chain does not exist
+		{ixServices[1], ixServices[1], true, false},                          // a service addressing itself: source and destination record are one
+		{ixServices[2], ixServices[3], true, false},                          // two services of one chain
 	}
 	n := 3 + rng.Intn(4)
 	rng.Shuffle(len(all), func(i, j int) { all[i], all[j] = all[j], all[i] })
@@ -442,7 +444,18 @@ func ixcWorkload(prop string, args []string) int {
 	w := vlog.Open(a.Out)
 	for id := a.From; id < a.To; id++ {
 		rng := vlog.CaseRand(a.Seed, "ixc", id) // C02, C04, C06 see the same histories
+		if prop == "C04" && id%6 == 5 {
+			// every sixth C04 case: transactions between two BitXHubs, seen from the source hub
+			guard(w, "hub04", func() { hub04Case(w, a, id, rng) })
+			continue
+		}
 		opts := harness.Options{NoAudit: rng.Intn(2) == 0}
+		if prop == "C06" && id%3 == 1 {
+			// every third C06 case: one-to-many groups, the timeout of the group as a whole
+			w.CaseStart(id, map[string]interface{}{"opts": opts, "kind": "one-to-many groups"})
+			guard(w, "grp06", func() { grp05Case(w, a, id, vlog.CaseRand(a.Seed, "grp05", id), opts, "C06") })
+			continue
+		}
 		w.CaseStart(id, map[string]interface{}{"no_audit": opts.NoAudit})
 		guard(w, "ixc", func() {
 			fx, err := ensureFixture(a.Work, opts)
@@ -498,6 +511,12 @@ func ixcWorkload(prop string, args []string) int {
 					w.Violation("exec:error", err.Error(), map[string]interface{}{"blocks": ir.blocks})
 					break
 				}
+				// the delivery sets the real router builds for this block (live and replay path)
+				for _, f := range ir.world.R.TakeRouterFindings() {
+					p := map[string]string{"transactions": "C02", "roots": "C02", "height": "C02", "timeout": "C06", "multitx": "C05"}[f.Part]
+					ir.viol(p, "delivery:"+f.Sig, f.Detail)
+				}
+				w.Count("router_blocks_checked", 1)
 			}
 			world.R.Close()
 			cnt := map[string]int{}
